@@ -149,6 +149,43 @@ func runWake(t *testing.T, tape *Tape, w *World, variant string, steps int, out 
 		waiters = append(waiters, ww)
 		r.ev("%s: waiting Pull on %s", id, ww.sub.Name)
 	}
+	// ---- in a quarter of the runs: another consumer of the first waiter's subscription, a
+	// StreamingPull that is opened and given up by its client while the waiters are parked and
+	// nothing is deliverable (so it takes nothing with it). Its end must not take anybody
+	// else's wake-up with it: the writers come afterwards.
+	if tape.Bool(25) {
+		sub := waiters[0].sub
+		quiet := true
+		now := time.Now()
+		for _, e := range sub.EDs {
+			if (e.State == stOut || e.Fuzzy) && e.mayAlive(now) && e.mayDue(now.Add(2*time.Second)) {
+				quiet = false
+			}
+		}
+		if _, okq := c.run(3000, nil); okq && quiet && !waiters[0].task.done {
+			ctxS, cancelS := context.WithCancel(context.Background())
+			in := make(chan *pubsubpb.StreamingPullRequest, 2)
+			in <- &pubsubpb.StreamingPullRequest{Subscription: sub.Name, StreamAckDeadlineSeconds: 10, MaxOutstandingMessages: 1000, ClientId: "bystander"}
+			got := 0
+			bt := c.spawn("bystander", func(ctx context.Context) {
+				fs := &fakeStream{ctx: ctxS, in: in, sent: func(resp *pubsubpb.StreamingPullResponse) { got += len(resp.ReceivedMessages) }}
+				err := w.StreamingPull(fs)
+				r.ev("bystander stream on %s ended: %v", sub.Name, code(err))
+			})
+			c.run(3000, nil)
+			cancelS()
+			S.Settle()
+			c.run(3000, nil)
+			if !bt.done || got > 0 {
+				// (it received something after all, or did not end: not the scenario)
+				r.Stats["bystander_stream_void"]++
+				c.finish()
+				r.M.Concurrent = false
+				return
+			}
+			r.Stats["bystander_stream_ended"]++
+		}
+	}
 	// ---- writers: one operation each that may make something deliverable
 	nwr := 1 + tape.Intn(3)
 	type wres struct {
